@@ -49,7 +49,7 @@ def grep_gate():
     """No Admitted/admit/Axiom/Parameter/... anywhere in the development."""
     bad = []
     pat = re.compile(r"\b(Admitted|admit|Axiom|Axioms|Parameter|Parameters|Conjecture|Admit Obligations)\b|Unset Guard|bypass_check|type-in-type|impredicative-set")
-    roots = [os.path.join(VERIF, d) for d in ("coq", "coq_effects", "coq_qcheck") if os.path.isdir(os.path.join(VERIF, d))]
+    roots = [os.path.join(VERIF, d) for d in ("coq", "coq_effects", "coq_qcheck", "coq_const", "coq_meta") if os.path.isdir(os.path.join(VERIF, d))]
     for root, _, files in (x for r in roots for x in os.walk(r)):
         for f in files:
             if f.endswith(".v"):
